@@ -172,13 +172,20 @@ func rootsFor(prop, tier string) []Root {
 		rs = append(rs, Root{Prop: prop, Harness: "VH_C05_Stream", Params: []int{2, 1, 0, 3}, MaxDecs: 4000, MaxSteps: 30000000})
 		rs = append(rs, Root{Prop: prop, Harness: "VH_C05_Stream", Params: []int{3, 1, 0, 3}, MaxDecs: 4000, MaxSteps: 30000000})
 		npk := []int{0, 1, 2}
-		for cause := 0; cause < 11; cause++ {
+		if thorough {
+			npk = []int{0, 1, 2, 3}
+		}
+		if prop == "C06" {
+			// the reason EACH attempt ended is reported for that attempt (cancel, then a master error ...)
+			rs = append(rs, Root{Prop: prop, Harness: "VH_C07_Attempts", Params: []int{1, 0}, MaxDecs: 6000, MaxSteps: 30000000})
+		}
+		for cause := 0; cause < 12; cause++ {
 			for _, n := range npk {
 				for ahead := 0; ahead < 2; ahead++ {
 					if cause >= 5 && cause <= 7 && (n != 1 || ahead != 0) {
 						continue // handshake failures: no packets flow
 					}
-					if (cause == 4 || cause == 10) && n == 0 {
+					if (cause == 4 || cause == 10 || cause == 11) && n == 0 {
 						continue // no transaction, hence no handler failure and no stop cause
 					}
 					if !thorough && n == 2 && ahead == 1 && cause != 4 {
@@ -229,6 +236,9 @@ func rootsFor(prop, tier string) []Root {
 			rs = append(rs, Root{Prop: prop, Harness: "VH_C08_Update", Params: []int{3}, MaxDecs: 4000})
 		}
 		rs = append(rs, Root{Prop: prop, Harness: "VH_C08_Retain", Params: []int{2}, MaxDecs: 2000, MaxSteps: 20000000})
+		// real events through the real reader and Stream; the handler keeps everything and re-reads it at the end
+		rs = append(rs, Root{Prop: prop, Harness: "VH_C01_History", Params: []int{1, 4}, MaxDecs: 6000, MaxSteps: 60000000, LibPrio: true})
+		rs = append(rs, Root{Prop: prop, Harness: "VH_C01_History", Params: []int{6, 4}, MaxDecs: 6000, MaxSteps: 60000000, LibPrio: true})
 		if thorough {
 			rs = append(rs, Root{Prop: prop, Harness: "VH_C08_Retain", Params: []int{3}, MaxDecs: 2000, MaxSteps: 20000000})
 		}
